@@ -2,7 +2,7 @@
    Each is closed by [exact] of a lemma of Proofs_*.v.  Model: coq/C07/Model.v (mirror of Db.cpp / PtrGeos.cpp /
    String.cpp, defects included); invariant and guards: coq/C07/Spec.v. *)
 From Coq Require Import List ZArith Bool Arith.
-From Gst Require Import C07.Model C07.Spec C07.Proofs_inv C07.Proofs_reach C07.Proofs_desig C07.Proofs_frame.
+From Gst Require Import C07.Model C07.Spec C07.Proofs_inv C07.Proofs_reach C07.Proofs_desig C07.Proofs_frame C07.Proofs_obs.
 Import ListNotations.
 
 (* ---- the invariant holds for a freshly created Db *)
@@ -77,6 +77,16 @@ Theorem C07_setlocs_col_post : forall s cs t' k cl c c',
   exists u, uid_of_col s c' = Some u /\ In u (loc (step s (SetLocsCol cs (Some t') k cl)) t').
 Proof. exact set_locs_col_post. Qed.
 Print Assumptions C07_setlocs_col_post.
+
+(* ---- the observation-level check evaluated by the search step (extracted, run on the implementation's getters)
+        is sound for the invariant: on the observations of any state satisfying Inv all eight clauses pass; hence an
+        alarm of check_obs on an observation equal to the model's means the model state itself violates Inv *)
+Theorem C07_obs_sound : forall s, Inv s -> check_obs (observe s) = 0%Z.
+Proof. exact obs_sound. Qed.
+Print Assumptions C07_obs_sound.
+Theorem C07_obs_sound_reachable : forall ops, all_accepted init ops -> check_obs (observe (run_ops ops)) = 0%Z.
+Proof. intros ops H. apply obs_sound. now apply reachable_inv. Qed.
+Print Assumptions C07_obs_sound_reachable.
 
 (* ================= finding still present in the code ================= *)
 
